@@ -4,6 +4,7 @@ three outputs are compared and the raw pointer dumps of the implementation are c
 the invariant the proofs rely on."""
 import os
 import random
+import re
 from collections import Counter
 
 import vlib
@@ -74,7 +75,136 @@ def _cmd(rng, nl, issued, cbs, profile, inside=False, depth=0):
     raise AssertionError(op)
 
 
+def gen_counted_script(rng, name, max_ops=30):
+    """CounterRemover / ConditionalRemover: wrapped listeners with every kind of trigger count, other listeners
+    around them, wrapped listeners that re-invoke the list (nested triggers)"""
+    nl = 1 if rng.random() < 0.7 else 2
+    lines = ["--- %s" % name, "lists %d" % nl]
+    plain = list(range(1, rng.randint(2, 5)))
+    nwrapped = rng.randint(1, 5)
+    wrapped = list(range(50, 50 + nwrapped))
+    for cb in plain + wrapped:
+        if rng.random() < 0.5:
+            for nth in rng.sample(["0", "1", "2"], rng.randint(1, 2)):
+                k = rng.randint(1, 3)
+                cmds = []
+                for _ in range(k):
+                    r = rng.random()
+                    l = rng.randrange(nl)
+                    if r < 0.45:
+                        cmds.append("invoke %d %d" % (l, rng.randint(0, 9)))
+                    elif r < 0.6:
+                        cmds.append("remove %d %s" % (l, rng.choice(["self", "self+1", "self-1", str(rng.randint(0, 8))])))
+                    elif r < 0.8:
+                        cmds.append("append %d %d" % (l, rng.choice(plain)))
+                    else:
+                        cmds.append("owns %d self" % l)
+                lines.append("beh %d %s 1 %s" % (cb, nth, " ; ".join(cmds)))
+    counts = [-2147483648, -3, -1, 0, 1, 1, 2, 2, 3, 5, 2147483647]
+    pending = list(wrapped)
+    rng.shuffle(pending)
+    for _ in range(rng.randint(6, max_ops)):
+        r = rng.random()
+        l = rng.randrange(nl)
+        if pending and r < 0.25:
+            cb = pending.pop()
+            if rng.random() < 0.6:
+                lines.append("do counted %d %d %d" % (l, cb, rng.choice(counts)))
+            else:
+                m = rng.randint(1, 4)
+                lines.append("do conditional %d %d %d %d" % (l, cb, m, rng.randrange(m)))
+        elif r < 0.4:
+            lines.append("do append %d %d" % (l, rng.choice(plain)))
+        elif r < 0.5:
+            lines.append("do remove %d %d" % (l, rng.randint(0, 10)))
+        elif r < 0.9:
+            lines.append("do invoke %d %d" % (l, rng.randint(0, 9)))
+        else:
+            lines.append("do enum %d %d" % (l, rng.randint(0, 9)))
+    for l in range(nl):
+        lines.append("do invoke %d 0" % l)
+        lines.append("do invoke %d 1" % l)
+    return "\n".join(lines) + "\n"
+
+
+def gen_rem_script(rng, name, max_ops=40):
+    """ScopedRemover histories over 2 lists and removers 0..2.  The generator tracks which list every
+    handle belongs to and each remover's target, so that no handle is used on a list it does not
+    belong to (that is outside every property)."""
+    nl = 2
+    lines = ["--- %s" % name, "lists %d" % nl]
+    owner = {}          # handle id -> list
+    target = {}         # live remover -> target list
+    issued = 0
+
+    def handle_for(l):
+        mine = [h for h, o in owner.items() if o == l]
+        if mine and rng.random() < 0.85:
+            return rng.choice(mine)
+        return issued + rng.randint(0, 2)
+
+    for _ in range(rng.randint(6, max_ops)):
+        r = rng.random()
+        R = rng.randrange(3)
+        if r < 0.12:
+            l = rng.randrange(nl)
+            lines.append("do rnew %d %d" % (R, l))
+            if R not in target:
+                target[R] = l
+        elif r < 0.40:
+            op = rng.choice(["rappend", "rappend", "rprepend", "rinsert"])
+            if op == "rinsert":
+                lines.append("do rinsert %d %d %d" % (R, rng.randint(1, 9), handle_for(target.get(R, 0))))
+            else:
+                lines.append("do %s %d %d" % (op, R, rng.randint(1, 9)))
+            if R in target:
+                owner[issued] = target[R]
+                issued += 1
+        elif r < 0.50:
+            lines.append("do rremove %d %d" % (R, rng.randint(0, max(0, issued))))
+        elif r < 0.56:
+            lines.append("do rreset %d" % R)
+        elif r < 0.62:
+            l = rng.randrange(nl)
+            lines.append("do rtarget %d %d" % (R, l))
+            if R in target:
+                target[R] = l
+        elif r < 0.70:
+            S = rng.randrange(3)
+            lines.append("do rmovector %d %d" % (R, S))
+            if R not in target and S in target:
+                target[R] = target[S]
+        elif r < 0.80:
+            S = rng.randrange(3)
+            lines.append("do rmoveassign %d %d" % (R, S))
+            if R in target and S in target:
+                target[R] = target[S]
+        elif r < 0.86:
+            S = rng.randrange(3)
+            lines.append("do rswap %d %d" % (R, S))
+            if R in target and S in target:
+                target[R], target[S] = target[S], target[R]
+        elif r < 0.92:
+            lines.append("do rdestroy %d" % R)
+            target.pop(R, None)
+        elif r < 0.97:
+            l = rng.randrange(nl)
+            lines.append("do append %d %d" % (l, rng.randint(1, 9)))
+            owner[issued] = l
+            issued += 1
+        else:
+            l = rng.randrange(nl)
+            lines.append("do remove %d %d" % (l, handle_for(l)))
+    for R in range(3):
+        lines.append("do rdestroy %d" % R)
+    return "\n".join(lines) + "\n"
+
+
 def gen_script(rng, name, profile, max_ops=40):
+    if profile == "counted":
+        return gen_counted_script(rng, name, max_ops)
+    if profile == "rem":
+        return gen_rem_script(rng, name, max_ops)
     nl = 1 if profile in ("flat", "reent", "wrap") and rng.random() < 0.7 else rng.randint(2, 3)
     ncb = rng.randint(2, 10)
     cbs = list(range(1, ncb + 1))
@@ -147,8 +277,13 @@ def run_batch(exe, scripts, names, timeout=120):
     """returns list of dict(name, script, impl, model, spec, impl_rc, stderr) for a batch"""
     text = "".join(scripts)
     rc_i, impl, err_i = vlib.run_harness(exe, text, timeout=timeout)
-    rc_m, model, err_m = vlib.run_driver("model", text)
-    rc_s, spec, err_s = vlib.run_driver("spec", text)
+    if is_rem_script(text):
+        # ScopedRemover scripts run on Util/Removers.lean (one model; the lists are Spec lists)
+        rc_m, model, err_m = vlib.run_driver("rem", text)
+        rc_s, spec, err_s = rc_m, model, err_m
+    else:
+        rc_m, model, err_m = vlib.run_driver("model", text)
+        rc_s, spec, err_s = vlib.run_driver("spec", text)
     res = []
     for n, s in zip(names, scripts):
         res.append(dict(name=n, script=s, impl=impl.get(n), model=model.get(n), spec=spec.get(n)))
@@ -161,6 +296,59 @@ def run_one(exe, script, timeout=20):
     return res[0], i
 
 
+def rem_oracle(script, canon):
+    """property C15 itself on one executed ScopedRemover script (which ends by destroying every remover)"""
+    cmds = [l.split()[1:] for l in script.splitlines() if l.startswith("do ")]
+    res, states = [], []
+    cur = None
+    for l in canon:
+        if l.startswith("ev res"):
+            res.append(l.split()[2])
+            states.append({})
+        elif l.startswith("state ") and states:
+            t = l.split(":", 1)
+            states[-1][int(t[0].split()[1])] = [int(x.split(":")[0]) for x in t[1].split()]
+    if len(res) < len(cmds):
+        return "implementation stopped after %d of %d commands" % (len(res), len(cmds))
+    via, direct, removed_direct = set(), set(), set()
+    live_rem = set()
+    for i, c in enumerate(cmds):
+        r = res[i]
+        ids_now = set(x for v in states[i].values() for x in v)
+        ids_before = set(x for v in states[i - 1].values() for x in v) if i else set()
+        if c[0] in ("rappend", "rprepend", "rinsert") and r.startswith("h"):
+            via.add(int(r[1:]))
+        elif c[0] == "append" and r.startswith("h"):
+            direct.add(int(r[1:]))
+        elif c[0] == "remove" and r == "true":
+            removed_direct.add(int(c[2]))
+        elif c[0] == "rremove":
+            h = int(c[2])
+            if r == "true" and h in ids_now:
+                return "rremove reported success but listener %d is still attached" % h
+            if r == "false" and h in ids_before and h not in ids_now:
+                return "rremove reported failure but detached listener %d" % h
+        if c[0] == "rnew" and r == "unit":
+            live_rem.add(int(c[1]))
+        if c[0] == "rmovector" and r == "unit":
+            live_rem.add(int(c[1]))
+        if c[0] == "rdestroy" and r == "unit":
+            live_rem.discard(int(c[1]))
+        if c[0] != "remove":
+            gone = (ids_before & direct) - ids_now
+            if gone:
+                return "command %s detached listener(s) %s that were not added through a remover" % (" ".join(c), sorted(gone))
+        if not live_rem:
+            left = ids_now & via
+            if left:
+                return "no remover is alive but listener(s) %s added through a remover are still attached" % sorted(left)
+    return None
+
+
+def is_rem_script(text):
+    return re.search(r"^do r(new|append|prepend|insert|remove|reset|target|movector|moveassign|swap|destroy) ", text, re.M) is not None
+
+
 def judge(r, impl_status):
     """compare one script's three outputs. returns None if all agree, else a reason string.
     'violation:' prefix = the implementation disagrees with the Spec (the property statement);
@@ -171,7 +359,29 @@ def judge(r, impl_status):
     canon, _ = strip_impl(r["impl"])
     if r["spec"] is None or r["model"] is None:
         return "corr: driver produced no output"
+    wraps = 0
+    model = []
+    for l in r["model"]:
+        if l.startswith("wraps "):
+            wraps = int(l.split()[1])
+        else:
+            model.append(l)
+    r = dict(r, model=model)
+    if wraps > 0 and not is_rem_script(r["script"]):
+        # a generation counter wrapped: invocations in progress at that moment may additionally call
+        # callbacks added during them (C19); the pointer Model is the reference for such runs
+        d = first_diff(canon, model)
+        if d:
+            return "violation: (run with a counter wrap) line %d impl=%r model=%r" % d
+        return None
     d = first_diff(canon, r["spec"])
+    if d and is_rem_script(r["script"]):
+        # the Model detaches at once where the property allows "at the latest when the removers are gone":
+        # a difference is a violation only if the property itself fails on the implementation's output
+        why = rem_oracle(r["script"], canon)
+        if why:
+            return "violation: " + why
+        return "corr: implementation differs from the ScopedRemover model at line %d impl=%r model=%r (the property's own oracle is satisfied)" % d
     if d:
         return "violation: line %d impl=%r spec=%r" % d
     d = first_diff(r["model"], r["spec"])
